@@ -441,6 +441,12 @@ func checkAttrs(sp *spec.Spec, msgs map[string]*protoparse.Message, pm *protopar
 			continue
 		}
 		f := find(a.Name)
+		if f == nil && a.Sec != "" && a.Tag == 0 {
+			// a credential attribute without a designed field number: goa sends it as request
+			// metadata unless the design maps it into the message
+			c.Outcome("credential-attribute-in-metadata")
+			continue
+		}
 		if f == nil {
 			fail("attribute-missing at=field", fmt.Sprintf("message %s has no field for attribute %q", pm.Name, a.Name))
 			continue
